@@ -67,6 +67,8 @@ func (j *jsonl) put(v any) {
 	j.n++
 }
 
+func (j *jsonl) flush() { j.w.Flush() }
+
 func (j *jsonl) close() {
 	j.w.Flush()
 	if j.f != nil {
